@@ -239,7 +239,7 @@ func Check(c *core.Ctx) (map[string]any, []string, error) {
 	}
 	cov := map[string]any{
 		"states": states + res.Distinct, "transitions": trans + res.Generated, "traces_validated_against_impl": nUnits,
-		"samples":   []any{map[string]any{"schedule": firstOr(schedules), "note": "each entry releases the named runtime for 3 statement polling points"}},
+		"samples":    []any{map[string]any{"schedule": firstOr(schedules), "note": "each entry releases the named runtime for 3 statement polling points"}},
 		"model_runs": tlcRuns, "schedules_replayed_gated": replayed, "units_judged": nUnits, "units_under_race_detector": len(raceUnits),
 		"race_reports": len(raceReports), "undecided_units": nUnd, "rejected_units": nBad,
 	}
